@@ -57,12 +57,12 @@ func VH_C14_ReadOnly() {
 	switch layout {
 	case 5:
 		// an upload directory left behind (empty) by an earlier writable server
-		vos.Mkdir(vhRoot+"/a/_uploads", vclock.Last())
+		vos.PutDir(vhRoot+"/a/_uploads", vclock.Last())
 	case 6:
 		// a repository that is a valid layout without any manifest or blob
 		vos.Put(vhRoot+"/e/oci-layout", []byte(`{"imageLayoutVersion":"1.0.0"}`), vclock.Last())
 		vos.Put(vhRoot+"/e/index.json", []byte(`{"schemaVersion":2,"mediaType":"application/vnd.oci.image.index.v1+json","manifests":[]}`), vclock.Last())
-		vos.Mkdir(vhRoot+"/e/blobs/sha256", vclock.Last())
+		vos.PutDir(vhRoot+"/e/blobs/sha256", vclock.Last())
 	case 1:
 		vhLegacyLayout(w)
 	case 2:
